@@ -23,12 +23,14 @@ type sim struct{}
 func init() { core.Register(sim{}) }
 
 func (sim) Name() string        { return "walletsim" }
-func (sim) Props() []string     { return []string{"C09", "C15", "C20", "C06", "C16"} }
+func (sim) Props() []string     { return []string{"C09", "C15", "C20", "C06", "C16", "C04"} }
 func (sim) Level(string) string { return "exploration" }
 func (sim) Rule(prop string) string {
 	switch prop {
 	case "C09":
 		return "C09: a case is (parallel sections of address-issuing calls by 2-4 user tasks on the same and on different scope/account/branch, scheduling strategy + seed, target-site bias on the commit->callback window); every mutex acquisition, goroutine start and database-transaction boundary of wallet, waddrmgr, bdb and bbolt is a scheduler decision."
+	case "C04":
+		return "C04 (wallet level): a case is (addresses issued on several scopes, optional raw accounts created by an earlier InitAccounts call, optional receipt, then Wallet.InitAccounts(scope, watchOnly=true, n), stop and reopen)."
 	case "C16":
 		return "C16: a case is (seed, recovery window W, a generated chain whose blocks pay harness-derived addresses of the four default scopes / both branches obeying the look-ahead condition exactly, spends of recovered outputs, block-time gaps from seconds to days, birthday at or before the first paying block, locked or unlocked restore, 0-3 interruptions (Stop + reopen, or a lock request) at seeded scheduling points inside the recovery)."
 	case "C06":
@@ -59,6 +61,8 @@ func (sim) Explain(prop string, st map[string]int64) string {
 	switch prop {
 	case "C09":
 		probes = []string{"probe.parked-between-commit-and-callback", "probe.same-branch-concurrent", "probe.dryrun-derived-change", "probe.psbt-change-issued", "probe.index-consumed-by-failed-call", "probe.porcupine-checked"}
+	case "C04":
+		probes = []string{"probe.wallet-level-conversion", "probe.conversion-with-accounts-requested", "probe.reopened-after-conversion", "probe.secret-patterns-scanned"}
 	case "C16":
 		probes = []string{"probe.paid-last-index-of-window", "probe.spend-of-recovered-output", "probe.recovery-interrupted", "probe.recovery-interrupted-midway", "probe.lock-during-recovery",
 			"probe.recovery-locked", "probe.recovery-unlocked", "probe.batch-boundary-crossed", "probe.c16-checked", "probe.checked-after-resumed-recovery"}
@@ -108,6 +112,8 @@ func (sim) Generate(prop, tier string, seed uint64) *core.Plan {
 		genC06(r, p)
 	case "C16":
 		genC16(r, p)
+	case "C04":
+		genC04w(r, p)
 	}
 	return p
 }
@@ -740,6 +746,12 @@ func (rs *runState) exec(task, step int, op core.Op) {
 		if x.running {
 			rs.lockop(step, op)
 		}
+	case "initaccts":
+		if x.running {
+			rs.initaccts(step, op)
+		}
+	case "reopencheck":
+		rs.reopencheck(step, op)
 	case "importdry":
 		if x.running {
 			rs.importdry(step, op)
